@@ -12,6 +12,13 @@ import networkx as nx
 from hivemon.common import REPO
 
 LAT0, LON0 = 39.75, -104.99
+# other places a town can be: across the 180th meridian (Taveuni), far north (Longyearbyen), at latitude 0 / longitude 0,
+# southern and eastern hemisphere (Sydney)
+PLACES = [(-16.85, 180.0), (78.22, 15.6), (0.0, 0.0), (-33.9, 151.2)]  # a town's centre
+
+
+def wrap_lon(x: float) -> float:
+    return ((x + 180.0) % 360.0) - 180.0
 DENVER_JSON = (
     REPO / "nrel/hive/resources/scenarios/denver_downtown/road_network/downtown_denver_network.json"
 )
@@ -41,13 +48,16 @@ def grid(params: Dict) -> nx.MultiDiGraph:
     p_delete = float(params.get("delete", 0.08))
     stretch = float(params.get("stretch", 1.3))
     p_missing = float(params.get("missing_speed", 0.0))
+    lat0, lon0 = LAT0, LON0
+    if params.get("origin"):  # the town's centre: the grid lies on both sides of that meridian and parallel
+        lat0, lon0 = params["origin"][0] - (n - 1) * dlat / 2, params["origin"][1] - (n - 1) * dlon / 2
     g = nx.MultiDiGraph()
     for i in range(n):
         for j in range(n):
             g.add_node(
                 i * n + j,
-                y=LAT0 + i * dlat + rnd.uniform(-jit, jit) * dlat,
-                x=LON0 + j * dlon + rnd.uniform(-jit, jit) * dlon,
+                y=lat0 + i * dlat + rnd.uniform(-jit, jit) * dlat,
+                x=wrap_lon(lon0 + j * dlon + rnd.uniform(-jit, jit) * dlon),
             )
 
     def add(u, v):
@@ -97,7 +107,7 @@ def grid(params: Dict) -> nx.MultiDiGraph:
                 continue
             t = nxt
             nxt += 1
-            g.add_node(t, y=g.nodes[u]["y"] + 1e-6, x=g.nodes[u]["x"] + 1e-6)
+            g.add_node(t, y=g.nodes[u]["y"] + 1e-6, x=wrap_lon(g.nodes[u]["x"] + 1e-6))
             sp = rnd.choice(speeds)
             g.add_edge(u, t, length=0.3, speed_kmph=sp)
             g.add_edge(t, u, length=0.3, speed_kmph=sp)
@@ -132,11 +142,15 @@ def grid(params: Dict) -> nx.MultiDiGraph:
             nxt += 1
             dy = rnd.choice([-1, 1]) * rnd.uniform(2e-5, 6e-5)
             dx = rnd.choice([-1, 1]) * rnd.uniform(2e-5, 6e-5)
-            g.add_node(t, y=g.nodes[u]["y"] + dy, x=g.nodes[u]["x"] + dx, spur=True)
+            g.add_node(t, y=g.nodes[u]["y"] + dy, x=wrap_lon(g.nodes[u]["x"] + dx), spur=True)
             d = _gc_m((g.nodes[u]["y"], g.nodes[u]["x"]), (g.nodes[t]["y"], g.nodes[t]["x"]))
             sp = rnd.choice(speeds)
             g.add_edge(u, t, length=d, speed_kmph=sp)
             g.add_edge(t, u, length=d, speed_kmph=sp)
+    if params.get("latlon_keys"):
+        # junction coordinates under "lat"/"lon" instead of "y"/"x" (the loader reads either)
+        for _, d in g.nodes(data=True):
+            d["lat"], d["lon"] = d.pop("y"), d.pop("x")
     return g
 
 
@@ -169,7 +183,7 @@ def manhattan() -> nx.MultiDiGraph:
 
 
 def spur_points(g: nx.MultiDiGraph):
-    return [(d["y"], d["x"]) for _, d in g.nodes(data=True) if d.get("spur")]
+    return [(d.get("y", d.get("lat")), d.get("x", d.get("lon"))) for _, d in g.nodes(data=True) if d.get("spur")]
 
 
 def node_points(g: nx.MultiDiGraph):
